@@ -1029,15 +1029,31 @@ Proof.
   change "." with (String "."%char ""). rewrite (prefix_char "."%char (String c r)), (Ascii.eqb_sym "."%char c). reflexivity.
 Qed.
 
+(* the atomic test inside a condition (so that deciding it decides every spelling of the condition) *)
+Ltac test_atom c :=
+  lazymatch c with
+  | negb ?a => test_atom a
+  | andb ?a _ => test_atom a
+  | orb ?a _ => test_atom a
+  | _ => constr:(c)
+  end.
+
 Ltac next_test t :=
   lazymatch t with
   | bind ?a _ => next_test a
-  | (if ?c then _ else _) => constr:(c)
+  | (if ?c then _ else _) => test_atom c
   | py_int_of_str ?x => constr:(py_int_of_str x)
   end.
 
 Lemma digit_int_contra : forall s e, py_match_digit (py_str_take 1 s) = true -> py_int_of_str (py_str_take 1 s) = Raise e -> False.
 Proof. intros [|c r] e; simpl; [discriminate|]. intros ->. discriminate. Qed.
+
+Lemma mol_not_slash : forall s, prefix "mol" s = true -> prefix "/" s = true -> False.
+Proof.
+  intros [|c r]; [discriminate|]. change "/" with (String "/"%char ""). rewrite prefix_char.
+  change "mol" with (String "m"%char "ol"). cbn [prefix].
+  destruct (ascii_dec "m" c) as [<-|]; intros H1 H2; discriminate.
+Qed.
 
 Lemma body_step : forall prenames u rest pre r ret' s divs,
   (prenames ++ u :: rest)%list = si_names -> List.length prenames = List.length pre ->
@@ -1051,15 +1067,15 @@ Proof.
   rewrite IX. cbn [bind].
   unfold step_m, slash_m, mkst, py_startswith. rewrite parse_exp_tests. unfold parse_exp_t.
   (* follow the generated code: decide the test it evaluates next (the model evaluates the same tests) *)
-  repeat (cbn [bind fst snd]; rewrite ?strip_dot, ?py_index_app, ?py_list_set_app;
+  repeat (cbn [bind fst snd negb andb orb]; rewrite ?strip_dot, ?py_index_app, ?py_list_set_app;
           match goal with
           | |- ?l = _ => let c := next_test l in destruct c eqn:?
           | |- context [match py_int_of_str ?x with _ => _ end] => destruct (py_int_of_str x) eqn:?
-          | |- context [if ?c then _ else _] => destruct c eqn:?
-          end); cbn [bind].
+          | |- context [if ?c then _ else _] => let a := test_atom c in destruct a eqn:?
+          end); cbn [bind negb andb orb].
   all: try reflexivity.
   all: try (rewrite Nat2Z.inj_succ; unfold Z.succ; reflexivity).
-  all: exfalso; eapply digit_int_contra; eassumption.
+  all: exfalso; first [eapply digit_int_contra; eassumption | eapply mol_not_slash; eassumption].
 Qed.
 
 Definition W (fuel : nat) (st : pstate) : result pstate := py_while fuel ptest pbody st.
